@@ -615,7 +615,14 @@ class Node:
             if deep is None:
                 deep = True
             topnodes = child._root.children.copy()
-            if before is not None and before is not False:
+            if before is True:
+                before = 0
+            if isinstance(before, int) and before is not False:
+                # Resolve the index once (as `list.insert()` would) and insert
+                # in reverse order, so the copies form one block in source
+                # order. (`before=node` keeps the order without reversing.)
+                count = len(self.children)
+                before = max(0, count + before) if before < 0 else min(before, count)
                 topnodes.reverse()
             self._check_copies(topnodes, deep)
             node = None
